@@ -14,9 +14,14 @@ From Mos.proofs Require Import ListFacts SeqFacts MoveFacts XmlFacts StoryOrder 
 Section Principle.
 Variable o : oracles.
 Variable Q : xml -> bool.
-Hypothesis Q_items : forall s s', has_tag t_story s = true -> same_but_items s s' -> Q s = true -> Q s' = true.
+Variables (k : mclass) (m b rc : xml).
+(* what the item-level edit of this message does to the story it is applied to *)
+Hypothesis Q_item_edit : forall i s f,
+  item_edit k m b = Some f -> find_story (addressed_story k b) (kids_of rc) = FFound i ->
+  nth_error (kids_of rc) i = Some s -> has_tag t_story s = true -> Q s = true ->
+  Q (set_kids s (r_st (f (kids_of s)))) = true.
 
-Theorem merge_kids_inv_flat k m b rc :
+Theorem merge_kids_inv_gen :
   forallb Q (kids_of rc) = true ->
   forallb Q (story_payload k b) = true ->
   (k = MetaDataReplace -> forallb Q (kids_of b) = true) ->
@@ -24,9 +29,9 @@ Theorem merge_kids_inv_flat k m b rc :
 Proof.
   intros Hk Hsp Hmd. set (kids := kids_of rc) in *.
   destruct (is_item_class k) eqn:Hitem.
-  { destruct (item_merge_shape o k m b rc Hitem) as [->|(i & s & ik' & Hn & Ht & Ho & ->)]; [assumption|].
+  { destruct (item_merge_cases o k m b rc Hitem) as [->|(i & s & f & Hf & Hfs & Hn & Ht & ->)]; [assumption|].
     apply forallb_update_nth; [assumption|]. intros x Hx. unfold kids in *. rewrite Hn in Hx. injection Hx as <-.
-    apply (Q_items s); [assumption | now exists ik' |].
+    apply (Q_item_edit i s f); try assumption.
     rewrite forallb_forall in Hk. apply Hk. eapply nth_error_In; eauto. }
   assert (Hfrom_story : forall new l', forallb Q new = true -> from new kids l' -> forallb Q l' = true).
   { intros new l' Hn Hf. apply (forallb_from _ new kids l'); auto. }
@@ -73,6 +78,23 @@ Proof.
     apply (perm_from skey). apply (gen_move_total skey str_eqb str_eqb_eq).
 Qed.
 End Principle.
+
+(* the special case of predicates that only look at the non-item children of a story *)
+Section Flat.
+Variable o : oracles.
+Variable Q : xml -> bool.
+Hypothesis Q_items : forall s s', has_tag t_story s = true -> same_but_items s s' -> Q s = true -> Q s' = true.
+Theorem merge_kids_inv_flat k m b rc :
+  forallb Q (kids_of rc) = true ->
+  forallb Q (story_payload k b) = true ->
+  (k = MetaDataReplace -> forallb Q (kids_of b) = true) ->
+  forallb Q (r_st (merge_kids o k m b rc)) = true.
+Proof.
+  apply merge_kids_inv_gen. intros i s f Hf _ _ Ht Hq.
+  apply (Q_items s); [assumption | | assumption].
+  exists (r_st (f (kids_of s))). split; [reflexivity|]. now apply (item_edit_others k m b).
+Qed.
+End Flat.
 
 (* ---- the guard as a boolean *)
 Section Guard.
